@@ -2,30 +2,15 @@ import Model.Ring
 import Proofs.C16Ring
 import Proofs.C16Refresh
 import Proofs.C16Index
+import Proofs.C16RefreshIdx
 /-! # C16 — the driver's picture of the cluster follows what the cluster reports (ring level)
 
 Model: `Model/Ring.lean` — the three indexes of `ring` (ring.go) and the diff loop of `refreshRing`
-(host_source.go). Events, debouncing, pool and policy propagation are NOT covered here. -/
+(host_source.go), with `removeHost` as REPAIRED for KF-C16-1 (the by-address entry is deleted only when
+it still maps to the host id being removed). Events, debouncing, pool and policy propagation are NOT
+covered here. -/
 namespace C16
 open Ring
-
-/-- every ring reachable by ring operations and refreshes stores each host under its own id -/
-theorem WF_refresh (r : Ring.Ring) (hw : WF r.byId) (filter : RHost → Bool) (reported : List RHost)
-    (hn : (acceptedIds filter reported).Nodup) : WF (r.refresh filter reported).1.byId := by
-  have h0 : LoopInv r [] (r, r.byId, {}) := ⟨by simp, by simp, hw, hw⟩
-  have ⟨hok, hi⟩ := loop_inv filter r reported [] _ h0 hn (by simp)
-  unfold Ring.refresh
-  generalize refreshLoop filter reported (r, r.byId, {}) = res at hok hi
-  obtain ⟨⟨r1, prev, eff⟩, res'⟩ := res
-  dsimp only at hok hi
-  subst hok
-  dsimp only
-  have : ∀ (p : List (Nat × RHost)) (r : Ring.Ring), WF r.byId → WF (removeAll r p).byId := by
-    intro p
-    induction p with
-    | nil => intro r h; exact h
-    | cons e t ih => intro r h; obtain ⟨k, v⟩ := e; exact ih _ (WF_remove r v.id h)
-  exact this prev r1 hi.wf
 
 /-- For every prior ring (well-formed: entries stored under their own id — true of every reachable ring),
 every host filter and every reported host list in which the accepted hosts have distinct host ids:
@@ -66,15 +51,125 @@ theorem C16_refresh_duplicate_id_fails :
     let a2 : RHost := ⟨2, 1, 8, 8⟩
     (Ring.empty.refresh (fun _ => false) [a, a2]).2.1 = .errCannotFind := by decide
 
-/-! ### index consistency — known defect D3
+/-! ### index consistency (KF-C16-1 repaired)
 
-Full statement (FAILS for the unchanged code): after every history of ring operations every host of the
-ring is found by its id and by its address: `getHost h.id = some h ∧ getHostByIP h.addr = (some h, true)`.
-`removeHost` deletes the by-address entry of the removed host's address even when that entry belongs
-to another (live) host id. -/
+The property: node details are looked up by id and by address consistently — after every history of
+topology refreshes every host of the ring is found by its id and by its address:
+`getHost h.id = some h ∧ getHostByIP h.addr = (some h, true)`. -/
 
-/-- holds for every history in which no host is added while a host with a DIFFERENT id has its address -/
-theorem C16_index_consistent_partial (ops : List ROp) (hg : Guarded Ring.empty ops) :
+/-- a cluster report as the diff loop sees it: the host filter and the reported hosts (local host + valid peers) -/
+abbrev Report := (RHost → Bool) × List RHost
+
+/-- the accepted (not filtered) reported hosts have pairwise distinct host ids and pairwise distinct
+node addresses — every report of a real cluster -/
+def GoodReport (x : Report) : Prop :=
+  ((x.2.filter (fun h => !x.1 h)).map (·.id)).Nodup ∧ ((x.2.filter (fun h => !x.1 h)).map (·.addr)).Nodup
+
+instance (x : Report) : Decidable (GoodReport x) := by unfold GoodReport; infer_instance
+
+/-- a history of refreshes -/
+def runRefreshes (r : Ring.Ring) (hist : List Report) : Ring.Ring :=
+  hist.foldl (fun r x => (r.refresh x.1 x.2).1) r
+
+theorem RInv_runRefreshes (r0 : Ring.Ring) (h0 : RInv r0) (hist : List Report) (hg : ∀ x ∈ hist, GoodReport x) :
+    RInv (runRefreshes r0 hist) := by
+  induction hist generalizing r0 with
+  | nil => exact h0
+  | cons x t ih =>
+    have hx := hg x List.mem_cons_self
+    exact ih _ (refresh_RInv r0 h0 x.1 x.2 hx.1 hx.2) (fun y hy => hg y (List.mem_cons_of_mem _ hy))
+
+/-- FULL theorem (was `C16_index_consistent_partial` before the repair of KF-C16-1).
+For every consistent prior ring `r0` (`RInv`: hosts stored under their own id, every host indexed by its
+address, no two hosts on one address — in particular the empty ring) and EVERY history of refreshes whose
+accepted reported hosts have pairwise distinct host ids and pairwise distinct addresses — including
+refreshes that replace a host id on the same address (dead node replaced), hosts whose address changed,
+hosts that swap addresses, filtered hosts — every host of the resulting ring is found by its id and by
+its address. -/
+theorem C16_refresh_index_consistent (r0 : Ring.Ring) (h0 : RInv r0) (hist : List Report)
+    (hg : ∀ x ∈ hist, GoodReport x) :
+    let r := runRefreshes r0 hist
+    ∀ h ∈ r.allHosts, r.getHost h.id = some h ∧ r.getHostByIP h.addr = (some h, true) := by
+  intro r h hh
+  exact RInv_lookup r (RInv_runRefreshes r0 h0 hist hg) h hh
+
+/-- the same from the empty ring (a new session) -/
+theorem C16_refresh_index_consistent_from_empty (hist : List Report) (hg : ∀ x ∈ hist, GoodReport x) :
+    let r := runRefreshes Ring.empty hist
+    ∀ h ∈ r.allHosts, r.getHost h.id = some h ∧ r.getHostByIP h.addr = (some h, true) :=
+  C16_refresh_index_consistent Ring.empty RInv_empty hist hg
+
+/-- after such a history the ring holds exactly the accepted hosts of the LAST report, every refresh of
+the history having succeeded on the way (the last one shown here), and each of them is found by id and
+by address -/
+theorem C16_refresh_history_follows_last_report (r0 : Ring.Ring) (h0 : RInv r0) (pre : List Report) (x : Report)
+    (hg : ∀ y ∈ pre ++ [x], GoodReport y) :
+    let r := runRefreshes r0 (pre ++ [x])
+    ((runRefreshes r0 pre).refresh x.1 x.2).2.1 = .ok ∧
+    (∀ id, id ∈ r.ids ↔ ∃ h ∈ x.2, x.1 h = false ∧ h.id = id) ∧
+    (∀ h ∈ r.allHosts, r.getHost h.id = some h ∧ r.getHostByIP h.addr = (some h, true)) := by
+  intro r
+  have hpre := RInv_runRefreshes r0 h0 pre (fun y hy => hg y (List.mem_append_left _ hy))
+  have hx := hg x (List.mem_append_right _ List.mem_cons_self)
+  have hr : r = ((runRefreshes r0 pre).refresh x.1 x.2).1 := by
+    simp only [r, runRefreshes, List.foldl_append, List.foldl_cons, List.foldl_nil]
+  have hex := C16_refresh_exact (runRefreshes r0 pre) hpre.wf x.1 x.2 hx.1
+  refine ⟨hex.1, ?_, C16_refresh_index_consistent r0 h0 (pre ++ [x]) hg⟩
+  rw [hr]
+  exact hex.2.1
+
+/-- non-vacuity: the history of KF-C16-1 — a dead node (id 1 on address 7) replaced by a new host id
+on the same address — and two hosts swapping their addresses in one report -/
+example :
+    let h1 : RHost := ⟨1, 1, 7, 7⟩
+    let h2 : RHost := ⟨2, 2, 7, 7⟩
+    let hist : List Report := [(fun _ => false, [h1]), (fun _ => false, [h2])]
+    (∀ x ∈ hist, GoodReport x) ∧ (runRefreshes Ring.empty hist).ids = [2] ∧
+    (runRefreshes Ring.empty hist).getHostByIP 7 = (some h2, true) := by
+  refine ⟨?_, by decide, by decide⟩
+  intro x hx
+  simp only [List.mem_cons, List.not_mem_nil, or_false] at hx
+  rcases hx with rfl | rfl <;> decide
+
+example :
+    let a : RHost := ⟨1, 1, 7, 7⟩
+    let b : RHost := ⟨2, 2, 8, 8⟩
+    let a' : RHost := ⟨3, 1, 8, 8⟩
+    let b' : RHost := ⟨4, 2, 7, 7⟩
+    let r := runRefreshes Ring.empty [(fun _ => false, [a, b]), (fun _ => false, [a', b'])]
+    GoodReport (fun _ => false, [a', b']) ∧
+    r.getHostByIP 8 = (some a', true) ∧ r.getHostByIP 7 = (some b', true) ∧ r.getHost 1 = some a' := by
+  refine ⟨by decide, by decide, by decide, by decide⟩
+
+/-! ### arbitrary add / remove histories -/
+
+/-- For EVERY history of `addHostIfMissing` / `addOrUpdate` / `removeHost` (additions unrestricted: hosts
+may be added on the address of another live host) in which every removal is harmless (`RemOk`: the removed
+host is the only host of the ring on its address, or its address is indexed to another host id):
+every host of the ring is found by its id, its address always leads to a host of the ring WITH THAT
+ADDRESS, and to the host itself whenever no other host of the ring has its address. -/
+theorem C16_ops_index_consistent (ops : List ROp) (hg : RemGuarded Ring.empty ops) :
+    let r := ops.foldl applyOp Ring.empty
+    ∀ h ∈ r.allHosts, r.getHost h.id = some h ∧
+      (∃ h' ∈ r.allHosts, h'.addr = h.addr ∧ r.getHostByIP h.addr = (some h', true)) ∧
+      ((∀ h' ∈ r.allHosts, h'.addr = h.addr → h' = h) → r.getHostByIP h.addr = (some h, true)) := by
+  intro r h hh
+  have hi : CInv r := CInv_run _ ⟨RInv_empty.wf, RInv_empty.knodup, RInv_cov _ RInv_empty⟩ ops hg
+  exact Cov_lookup r hi.wf hi.knodup hi.cov h hh
+
+/-- the history of KF-C16-1 at the level of ring operations is covered now: add(id1@7), add(id2@7),
+removeHost(id1) — `RemOk` holds (address 7 is indexed to id 2) and the live node is found by its address -/
+example :
+    let h1 : RHost := ⟨1, 1, 7, 7⟩
+    let h2 : RHost := ⟨2, 2, 7, 7⟩
+    let ops := [ROp.addIfMissing h1, .addIfMissing h2, .remove 1]
+    RemGuarded Ring.empty ops ∧ (ops.foldl applyOp Ring.empty).getHostByIP 7 = (some h2, true) := by
+  refine ⟨⟨?_, trivial⟩, by decide⟩
+  decide
+
+/-- For every history in which no host is added while a host with a DIFFERENT id has its address
+(removals unrestricted) every host of the ring is found by its id and by its address. -/
+theorem C16_ops_index_consistent_distinct_addr (ops : List ROp) (hg : Guarded Ring.empty ops) :
     let r := ops.foldl applyOp Ring.empty
     ∀ h ∈ r.allHosts, r.getHost h.id = some h ∧ r.getHostByIP h.addr = (some h, true) := by
   intro r h hh
@@ -83,22 +178,148 @@ theorem C16_index_consistent_partial (ops : List ROp) (hg : Guarded Ring.empty o
 example : Guarded Ring.empty [.addIfMissing ⟨1, 1, 7, 7⟩, .addIfMissing ⟨2, 2, 8, 8⟩, .remove 1, .addOrUpdate ⟨3, 3, 7, 7⟩] := by
   refine ⟨?_, ?_, ?_, trivial⟩ <;> decide
 
-/-- Known defect D3 (kernel-checked): add(id1@X), add(id2@X), removeHost(id1) — the live node id2
-is still in the ring but is no longer found by its address. -/
-theorem C16_cex_index_consistent :
+/-- a ring operation or a refresh with an ARBITRARY report (duplicates, shared addresses, failing half way) -/
+inductive HOp | op (o : ROp) | refresh (filter : RHost → Bool) (reported : List RHost)
+
+def applyH (r : Ring.Ring) : HOp → Ring.Ring
+  | .op o => applyOp r o
+  | .refresh f rep => (r.refresh f rep).1
+
+/-- After EVERY history of ring operations and refreshes (no hypothesis at all) the by-address index has
+no stale entry: when `getHostByIP a` answers "known address" the host it returns is a host of the ring
+with address `a` — never nil (`handleNodeUp` / `handleNodeDown` dereference it). -/
+theorem C16_byip_never_stale (ops : List HOp) :
+    let r := ops.foldl applyH Ring.empty
+    ∀ a x, r.getHostByIP a = (x, true) → ∃ h, x = some h ∧ h ∈ r.allHosts ∧ h.addr = a := by
+  intro r a x hx
+  have hi : SInv r := by
+    have : ∀ (ops : List HOp) (r : Ring.Ring), SInv r → SInv (ops.foldl applyH r) := by
+      intro ops
+      induction ops with
+      | nil => intro r h; exact h
+      | cons o t ih =>
+        intro r h
+        apply ih
+        cases o with
+        | op o =>
+          cases o with
+          | addIfMissing h' => exact SInv_addIfMissing r h h'
+          | addOrUpdate h' => exact SInv_addIfMissing r h h'
+          | remove k => exact SInv_remove r h k
+        | refresh f rep => exact refresh_preserves SInv (fun r h' hp => SInv_addIfMissing r hp h') (fun r k hp => SInv_remove r hp k) r h f rep
+    exact this ops _ SInv_empty
+  exact NoStale_lookup r hi.knodup hi.ns a x hx
+
+/-- along the history: no host is added by a ring operation while a host with another id has its address,
+and every refresh has a `GoodReport`; removals are unrestricted, everything may be interleaved -/
+def HGuarded : Ring.Ring → List HOp → Prop
+  | _, [] => True
+  | r, .op (.addIfMissing h) :: t => AddrFree r h ∧ HGuarded (r.addIfMissing h).1 t
+  | r, .op (.addOrUpdate h) :: t => AddrFree r h ∧ HGuarded (r.addOrUpdate h).1 t
+  | r, .op (.remove id) :: t => HGuarded (r.remove id).1 t
+  | r, .refresh f rep :: t => GoodReport (f, rep) ∧ HGuarded (r.refresh f rep).1 t
+
+theorem RInv_runH (r : Ring.Ring) (hr : RInv r) (ops : List HOp) (hg : HGuarded r ops) : RInv (ops.foldl applyH r) := by
+  induction ops generalizing r with
+  | nil => exact hr
+  | cons o t ih =>
+    cases o with
+    | op o =>
+      cases o with
+      | addIfMissing h => exact ih _ (RInv_addIfMissing r hr h hg.1) hg.2
+      | addOrUpdate h => exact ih _ (RInv_addIfMissing r hr h hg.1) hg.2
+      | remove id => exact ih _ (RInv_remove r hr id) hg
+    | refresh f rep => exact ih _ (refresh_RInv r hr f rep hg.1.1 hg.1.2) hg.2
+
+theorem notFound_nil_of (r : Ring.Ring)
+    (h : ∀ h ∈ r.allHosts, r.getHost h.id = some h ∧ r.getHostByIP h.addr = (some h, true)) : r.notFound = [] := by
+  unfold Ring.notFound
+  rw [List.filter_eq_nil_iff]
+  intro a ha
+  have := h a ha
+  simp [this.1, this.2]
+
+/-- The interleaved form (subsumes `C16_refresh_index_consistent_from_empty` and
+`C16_ops_index_consistent_distinct_addr`; it is the condition under which the differential run treats the
+observation `consistent` = `Ring.notFound` as specified): for every history of ring operations and
+refreshes satisfying `HGuarded`, every host of the ring is found by its id and by its address. -/
+theorem C16_history_index_consistent (ops : List HOp) (hg : HGuarded Ring.empty ops) :
+    let r := ops.foldl applyH Ring.empty
+    (∀ h ∈ r.allHosts, r.getHost h.id = some h ∧ r.getHostByIP h.addr = (some h, true)) ∧ r.notFound = [] := by
+  intro r
+  have h1 : ∀ h ∈ r.allHosts, r.getHost h.id = some h ∧ r.getHostByIP h.addr = (some h, true) :=
+    fun h hh => RInv_lookup r (RInv_runH _ RInv_empty ops hg) h hh
+  exact ⟨h1, notFound_nil_of r h1⟩
+
+/-- non-vacuity: a session's first host, then a report that replaces it by a new host id on its address, then a removal -/
+example : HGuarded Ring.empty [.op (.addOrUpdate ⟨1, 1, 7, 7⟩), .refresh (fun _ => false) [⟨2, 2, 7, 7⟩, ⟨3, 3, 8, 8⟩], .op (.remove 3)] := by
+  refine ⟨by decide, by decide, trivial⟩
+
+/-- the observation `covered` = `Ring.uncovered` of the differential run is empty after every
+`RemGuarded` history of ring operations -/
+theorem C16_ops_uncovered_nil (ops : List ROp) (hg : RemGuarded Ring.empty ops) :
+    (ops.foldl applyOp Ring.empty).uncovered = [] := by
+  have hall := C16_ops_index_consistent ops hg
+  dsimp only at hall
+  generalize ops.foldl applyOp Ring.empty = r at hall
+  unfold Ring.uncovered
+  rw [List.filter_eq_nil_iff]
+  intro a ha
+  obtain ⟨h1, ⟨h', hm, hadr, hget⟩, _⟩ := hall a ha
+  rw [hget]
+  by_cases e : h' = a
+  · subst e
+    simp [h1, ha]
+  · simp only [h1, hm, hadr, decide_true, beq_self_eq_true, Bool.and_true, Bool.true_and, e, decide_false,
+      Bool.false_or, Bool.not_eq_eq_eq_not, Bool.not_true, Bool.not_eq_false]
+    exact List.any_eq_true.mpr ⟨h', hm, by simp [e, hadr]⟩
+
+/-- the observation `nostale` = `Ring.staleAddrs` of the differential run is empty after EVERY history -/
+theorem C16_stale_nil (ops : List HOp) (n : Nat) : (ops.foldl applyH Ring.empty).staleAddrs n = [] := by
+  have hall := C16_byip_never_stale ops
+  dsimp only at hall
+  generalize ops.foldl applyH Ring.empty = r at hall
+  unfold Ring.staleAddrs
+  rw [List.filter_eq_nil_iff]
+  intro a _
+  have := hall a
+  generalize r.getHostByIP a = res at this
+  obtain ⟨x, b⟩ := res
+  cases b with
+  | false => cases x <;> simp
+  | true =>
+    obtain ⟨h, rfl, hm, ha⟩ := this x rfl
+    simp [hm, ha]
+
+/-- RESIDUAL case (kernel-checked), outside what the property demands: two LIVE hosts on one address is
+not a state a cluster reports (`GoodReport`), it exists only transiently inside the diff loop, where the
+host removed is never the indexed one (`IdxCore_remove`). With the repaired code the by-address index
+still points to only one of two live hosts that share an address, and removing THAT one un-indexes the
+address: add(id1@7), add(id2@7), removeHost(id2) — id1 is in the ring and is not found by address 7.
+The history violates `RemOk` at the removal. -/
+theorem C16_cex_residual_shared_address :
     let h1 : RHost := ⟨1, 1, 7, 7⟩
     let h2 : RHost := ⟨2, 2, 7, 7⟩
-    let r := [ROp.addIfMissing h1, .addIfMissing h2, .remove 1].foldl applyOp Ring.empty
-    h2 ∈ r.allHosts ∧ r.getHost 2 = some h2 ∧ r.getHostByIP 7 = (none, false) := by
+    let ops := [ROp.addIfMissing h1, .addIfMissing h2, .remove 2]
+    let r := ops.foldl applyOp Ring.empty
+    h1 ∈ r.allHosts ∧ r.getHost 1 = some h1 ∧ r.getHostByIP 7 = (none, false) ∧ ¬ RemGuarded Ring.empty ops := by
+  refine ⟨by decide, by decide, by decide, fun hg => ?_⟩
+  have h : RemOk ((Ring.empty.addIfMissing ⟨1, 1, 7, 7⟩).1.addIfMissing ⟨2, 2, 7, 7⟩).1 2 := hg.1
+  revert h
   decide
 
-/-- the same defect through a refresh: a dead node (id1@X) replaced by a new host id on the same
-address (id2@X) — after the refresh the only node of the ring is not found by its address -/
-theorem C16_cex_refresh_replaced_node :
+/-! ### regression: the definition before the repair (`Ring.removeOld`) fails on the histories of KF-C16-1 -/
+
+example :
     let h1 : RHost := ⟨1, 1, 7, 7⟩
     let h2 : RHost := ⟨2, 2, 7, 7⟩
-    let r := ((Ring.empty.refresh (fun _ => false) [h1]).1.refresh (fun _ => false) [h2]).1
-    r.ids = [2] ∧ r.getHostByIP 7 = (none, false) := by
-  decide
+    let r := (((Ring.empty.addIfMissing h1).1.addIfMissing h2).1.removeOld 1).1
+    h2 ∈ r.allHosts ∧ r.getHost 2 = some h2 ∧ r.getHostByIP 7 = (none, false) := by decide
+
+example :
+    let h1 : RHost := ⟨1, 1, 7, 7⟩
+    let h2 : RHost := ⟨2, 2, 7, 7⟩
+    let r := (((Ring.empty.addIfMissing h1).1.addIfMissing h2).1.remove 1).1
+    h2 ∈ r.allHosts ∧ r.getHost 2 = some h2 ∧ r.getHostByIP 7 = (some h2, true) := by decide
 
 end C16
